@@ -87,7 +87,7 @@ def direct_target(job):
     for spec in job["specs"]:
         cfg = pipeline.make_config(spec)
         g = RegionGeomToO(cfg)
-        for rethrow in (False, True):
+        for rethrow in ((False,) if spec.get("no_rethrow") else (False, True)):
             if not rethrow:
                 g.throw(int(spec["thrown"]))
             else:
@@ -97,6 +97,8 @@ def direct_target(job):
                 g.throw((np.arange(n) / n)[::-1].copy())
             events += _target_calls(g, cfg, spec, rng, max(2, job["calls"] // 2) if rethrow else job["calls"], rethrow)
         # coarse sampling: explicit instants of which exactly ONE (then two) is observable - a single surviving trajectory is a valid run
+        if spec.get("no_rethrow"):
+            continue
         try:
             n = int(spec["thrown"])
             g.throw(n)
@@ -266,6 +268,9 @@ def run(tier="quick", seed=0):
             jobs.append({"t": "dd", "specs": [s], "seed": seed + 10 + i, "thrown": 40, "calls": 24 if thorough else 16})
         for s in tspecs:
             jobs.append({"t": "dt", "specs": [s], "seed": seed + 50 + i, "calls": 24 if thorough else 12})
+    # MANY surviving instants in one Target integral (more than 4096, not a multiple of any block size), over a month so that day and night,
+    # Moon up and down all occur among them: the dark-sky condition is evaluated at EACH event time
+    jobs.append({"t": "dt", "specs": [dict(tspecs[1], thrown=100003 if not thorough else 200003, no_rethrow=True)], "seed": seed + 77, "calls": 2})
     e2e = [{"mode": "Diffuse", "thrown": 300, "log_e": 9.0, "pe_thr": 0.5, "snr_thr": 0.5},
            {"mode": "Diffuse", "thrown": 300, "spectrum": "power", "cloud": "uniform", "altitude": 33.0, "limb": 0.05, "pe_thr": 1.0},
            {"mode": "Target", "thrown": 1500, "log_e": 9.0, "pe_thr": 0.5, "snr_thr": 0.5},
